@@ -15,6 +15,11 @@ PROPS = {
              assumptions=["flush-on-ack (default) mode"]),
     "C05": P("w1", quick_runs=4000, thorough_runs=300000, quick_budget_s=100, thorough_budget_s=1500,
              assumptions=["flush-on-ack (default) mode", "topics are not deleted in this world"]),
+    "C02": P("w1", quick_runs=4000, thorough_runs=300000, quick_budget_s=100, thorough_budget_s=1500),
+    "C03": P("w1", quick_runs=3000, thorough_runs=200000, quick_budget_s=100, thorough_budget_s=1500),
+    "C04": P("w1", quick_runs=3000, thorough_runs=200000, quick_budget_s=100, thorough_budget_s=1500, required_probes=["c04.judged"]),
+    "C06": P("w1", quick_runs=3000, thorough_runs=200000, quick_budget_s=100, thorough_budget_s=1500, required_probes=["c06.verify"],
+             assumptions=["flush-on-ack (default) mode"]),
 }
 
 NA = {
